@@ -231,9 +231,9 @@ class Prop:
     case_vo = "theories/Cases/CaseC09.vo"
     run_fn = "run09"
     shard = 19
-    rule = ("trees with clones: every ordered forest with <= N nodes (N=4 quick, 5 thorough) under 5 labelings (distinct strings; clones in "
-            "different parents; equal-comparing objects; explicit int/str data_ids and node_ids colliding with int data; falsy data 0 / '') "
-            "x {as built, first node moved to the end, a clone removed and re-added} plus seeded random trees (<= 14 nodes quick, <= 30 "
+    rule = ("trees with clones: every ordered forest with <= N nodes (N=4 quick, 5 thorough) under 6 labelings (distinct strings; clones in "
+            "different parents; all leaves clones of each other; equal-comparing objects; explicit int/str data_ids and node_ids colliding with int data; falsy data 0 / '') "
+            "x {as built, siblings created last-to-first, a clone removed / re-added / moved, a clone moved behind its later clone} plus seeded random trees (<= 14 nodes quick, <= 30 "
             "thorough; plain and typed; default, name-based and hash-mod-7 calc_data_id) shuffled by random moves/removals/additions so the "
             "clone index order differs from pre-order; per tree: Node.find_all/find_first from every node x 11 regular expressions (str, "
             "(str,flags), [str,flags]) + 9 callbacks + identity matches x add_self x max_results in {None,0,1..5}; the same by data and "
@@ -241,7 +241,7 @@ class Prop:
             "tree[key], key in tree, del tree[key] for every key kind (data object, int/str data_id, node_id, float/bool/tuple, absent, "
             "ambiguous, None, a Node).  A case is one tree with all its queries; distinct = distinct (universe, nodes, ops, calc); "
             "non-trivial = >= 3 nodes and a clone group of size >= 2")
-    exhaustive_note = "all shapes <= N nodes (N=4 quick) x 5 labelings x 3 shuffles, every start node, every matcher, k in {None,1,2,3}"
+    exhaustive_note = "all shapes <= N nodes (N=4 quick) x 6 labelings x 4 shuffles, every start node, every matcher, k in {None,1,2,3}"
     assumptions = [
         "identity of nodes is the allocation index recorded by a harness-side wrapper of Node.__init__",
         "re.fullmatch is a pure predicate of the node name (the harness evaluates the real `re` and passes the truth table)",
@@ -285,20 +285,28 @@ class Prop:
         nmax = 4 if tier == "quick" else 5
         ks = [None, 1, 2, 3] if tier == "quick" else [None, 0, 1, 2, 3, 5]
         labelings = [
-            lambda i, d, s: (i % 4, None, None, None),                       # distinct strings a b ab A
-            lambda i, d, s: ((d + s) % 3, None, None, None),                 # clones in different parents
-            lambda i, d, s: (6 + (i % 2), None, None, None),                 # equal-comparing distinct objects (one clone group)
-            lambda i, d, s: ([4, 0, 12, 4, 1][i % 5], None, [None, 7, None, "a", 3][i % 5], [3, None, 7, None, 11][i % 5]),
-            lambda i, d, s: ([5, 9, 0, 5, 9][i % 5], None, [None, None, 0, None, ""][(i + d) % 5], None),   # falsy data / data_id
+            lambda i, d, s, *_: (i % 4, None, None, None),                       # distinct strings a b ab A
+            lambda i, d, s, *_: ((d + s) % 3, None, None, None),                 # clones in different parents
+            lambda i, d, s, *_: (6 + (i % 2), None, None, None),                 # equal-comparing distinct objects (one clone group)
+            lambda i, d, s, *_: ([4, 0, 12, 4, 1][i % 5], None, [None, 7, None, "a", 3][i % 5], [3, None, 7, None, 11][i % 5]),
+            lambda i, d, s, *_: ([5, 9, 0, 5, 9][i % 5], None, [None, None, 0, None, ""][(i + d) % 5], None),   # falsy data / data_id
+            lambda i, d, s, t: ((1 if not t else [0, 2, 3, 11][d % 4]), None, None, None),    # every leaf carries the same data
         ]
-        shuffles = [([], False), ([["mvc", 0, -1]], True), ([["rm", 1], ["add", 0, 1, None, 7], ["mvc", 1, -1], ["mv", 2, 0, 0]], False)]
+        shuffles = [([], False), ([], True), ([["rm", 1], ["add", 0, 1, None, 7], ["mvc", 1, -1], ["mv", 2, 0, 0]], False),
+                    ([["mvc", 0, -1]], True)]
         for n in range(0, nmax + 1):
             for shi, shape in enumerate(H.forests(n)):
                 for li, lab in enumerate(labelings):
                     for si, (ops, rev) in enumerate(shuffles):
                         if n == 0 and (li or si):
                             continue
-                        if n >= nmax and n >= 4 and si != (li + shi) % 3:   # largest size: one shuffle per labeling, rotating
+                        # largest size: one shuffle per labeling, rotating; the clone-heavy labelings always get the
+                        # reversed creation order as well (index order != pre-order inside one branch)
+                        if n >= nmax and n >= 4 and si != (li + shi) % 4 and not (li in (1, 5) and si == 1):
+                            continue
+                        if n <= 2 and si >= 2:                 # tiny trees: as built / reversed only
+                            continue
+                        if 2 < n < nmax and si % 2 != (li + shi) % 2:   # middle sizes: two of the four shuffles, rotating
                             continue
                         nodes = _label(shape, lab)
                         yield dict(univ=UNIV, calc=None, typed=False, nodes=nodes, ops=ops, rev=rev, mode="full", ks=_k(ks))
@@ -313,7 +321,7 @@ class Prop:
             nids = [rng.choice([3, 7, 11, 12]) if rng.random() < 0.2 else None for _ in range(n)]
             typed = rng.random() < 0.25
             kinds = [rng.choice(["x", "y"]) if typed else None for _ in range(n)]
-            nodes = _label(shape, lambda i, d, s: (labs[i], kinds[i], dids[i], nids[i]))
+            nodes = _label(shape, lambda i, d, s, *_: (labs[i], kinds[i], dids[i], nids[i]))
             ops = []
             for _ in range(rng.randint(0, 8)):
                 r = rng.random()
@@ -391,7 +399,7 @@ class Prop:
         queries = []
         full = desc.get("mode") == "full"
         mi_all = list(range(len(matchers)))
-        mi_small = [0, 1, 3, 5, 6, n_re, n_re + 2, n_re + 4, n_re + 5, n_re + n_pr]
+        mi_small = [1, 3, 5, 6, n_re, n_re + 2, n_re + 5, n_re + n_pr]
         for p in range(len(nodes)):
             for mi in (mi_small if full else mi_all):
                 queries.append(("NFA", p, None, mi, None, ks))
@@ -623,7 +631,17 @@ class Prop:
             return [n for n in nodes if same_did(n._data_id, d)]
 
         def fail(msg, exp):
-            return f"{kind}{'' if kind in ('get', 'in', 'del') else ''}: {msg}: query {_show(q)} got {o} expected {exp}"
+            # the text before the first ':' is the category the runner groups failing inputs by
+            cat = {"nfa": "Node.find_all", "nff": "Node.find_first", "tfa": "Tree.find_all", "tff": "Tree.find_first",
+                   "get": "tree[key]", "in": "key in tree", "del": "del tree[key]"}[kind]
+            if kind in ("nfa", "nff", "tfa", "tff"):
+                by = "match" if q[3 if kind[0] == "n" else 2] is not None else "data/data_id"
+                d = q[2 if kind[0] == "n" else 1]
+                i = q[4 if kind[0] == "n" else 3]
+                if by != "match" and ((d is not None and not d and not isinstance(d, tuple)) or (i is not None and not i)):
+                    by = "falsy data/data_id"
+                cat += f"({by})"
+            return f"{cat}: {msg}: query {_show(q)} got {o} expected {exp}"
 
         if kind in ("nfa", "nff", "tfa", "tff"):
             node_id = None
@@ -747,7 +765,7 @@ def _label(shape, lab):
         for si, t in enumerate(f):
             i = counter[0]
             counter[0] += 1
-            lbl, kind, did, node_id = lab(i, depth, si)
+            lbl, kind, did, node_id = lab(i, depth, si, t)
             out.append([lbl, kind, did, go(t, depth + 1), node_id])
         return out
 
